@@ -407,7 +407,7 @@ def gen_workload(tape):
                         "load", "find", "corrupt", "save", "populate_some",
                         "corrupt", "set_coverage", "remove_file", "corrupt",
                         "populate_fault", "restart_interrupted",
-                        "exit_after_drop"], "op")
+                        "exit_after_drop", "reset_cache"], "op")
         o = {"op": op}
         if op in ("corrupt", "save"):
             o["same_tick"] = tape.flag("same_tick", 1, 2)
@@ -842,6 +842,11 @@ class Exec:
         elif kind == "restart_crash":
             self.atexit.handlers = []
             self.fs = self._construct()
+        elif kind == "reset_cache":
+            # the user empties the cache of the live object: a later save writes
+            # what the object holds then, not what the file held before
+            fs.reset_cache()
+            self.probe("cache_reset_by_the_user")
         elif kind == "exit_after_drop":
             # the script held its FileSet in a local variable: the last
             # reference is gone before the interpreter shuts down and runs the
